@@ -44,20 +44,30 @@ def finish_check(prop, tier, ex, t0, build_s, oracle, ref_fn, assumptions, extra
             log("regression: %s reproduces again" % rp)
             violations.append(rp)
     byclass = {}
+    known_seen = {}
     for f in ex.failures:
-        cls = f["fails"][0][0]
+        # failures listed in known_findings.json are reported once per entry and never hide another failure of the same run
+        unknown = []
+        for cls, msg in f["fails"]:
+            kf = match_known(prop, cls, msg, f["case"].w.wid)
+            if kf:
+                known_seen.setdefault(kf.get("what", cls), (cls, f["case"].w.wid))
+            else:
+                unknown.append((cls, msg))
+        if not unknown:
+            continue
+        f = dict(f, fails=unknown)
+        cls = unknown[0][0]
         key = cls.split(":")[0] + ":" + f["case"].mode
         cur = byclass.get(key)
         size = sum(len(v) for v in f["case"].w.facts.values()) if f["case"].w.origin != "corpus" else 10 ** 9
         if cur is None or size < cur[0]:
             byclass[key] = (size, f)
+    for what, (cls, wid) in sorted(known_seen.items()):
+        known_lines.append("KNOWN-FINDING: property=%s %s (%s, e.g. on %s)" % (prop, what, cls, wid))
     reported = 0
     for key, (_, f) in sorted(byclass.items()):
         cls, msg = f["fails"][0]
-        kf = match_known(prop, cls, msg, f["case"].w.wid)
-        if kf:
-            known_lines.append("KNOWN-FINDING: property=%s %s (%s on %s)" % (prop, kf.get("what", cls), cls, f["case"].w.wid))
-            continue
         if cls == "oracle-exception":
             mfaults.append("oracle raised an exception on %s: %s" % (f["case"].key(), msg))
             continue
